@@ -112,7 +112,7 @@ def gen_case(ctx, rng, shared_keys=False, dates=False):
             date_verdicts[node["d"]] = [key, text, {"931": off == 0, "932": sod == 0, "933": sod == 0, "934": sod == 21600, "935": sod == 21600}[key]]
         owners = {}
     asg = {k: rng.choice("FFFU") for k in RC}
-    return {"date_verdicts": date_verdicts, "spec": spec, "owners": owners, "asg": asg, "soll": rng.random() < 0.5, "schedule_seed": rng.randrange(1 << 30), "shared": shared_keys, "stale": rng.random() < 0.5, "constant_objects": shared_keys and rng.random() < 0.6}
+    return {"date_verdicts": date_verdicts, "spec": spec, "owners": owners, "asg": asg, "soll": rng.random() < 0.5, "schedule_seed": rng.randrange(1 << 30), "shared": shared_keys, "stale": rng.random() < 0.5, "constant_objects": (rng.choice(["text-constant-objects", "text-shared-objects"]) if shared_keys and rng.random() < 0.6 else (("text-shared-objects" if rng.random() < 0.15 else False) if not dates else False))}
 
 
 async def check_tree(ctx, case):
@@ -120,7 +120,7 @@ async def check_tree(ctx, case):
     ctx.set_case("tree", case)
     ctx.count("trees")
     inputs = {n["d"]: n["input"] for n in T.walk(spec) if n["k"] == "F"}
-    world = E.World("c15", rc=asg, fc_mode="text-constant-objects" if case.get("constant_objects") else "text")
+    world = E.World("c15", rc=asg, fc_mode=case.get("constant_objects") if isinstance(case.get("constant_objects"), str) else ("text-constant-objects" if case.get("constant_objects") else "text"))
     if case.get("constant_objects"):
         ctx.count("trees_with_reused_result_objects")
     chooser = sched.RandomChooser(random.Random(case["schedule_seed"]))
